@@ -6,6 +6,11 @@ def M(id, prop, *edits):
     MUTANTS.append(dict(id=id, prop=prop, edits=list(edits)))
 
 
+def MC(id, prop, *c_edits):
+    """mutant of the compiled extension: edits of the generated C, recompiled with clang (no Cython here)"""
+    MUTANTS.append(dict(id=id, prop=prop, edits=[], c_edits=list(c_edits)))
+
+
 # ---- C13
 M("c13-ops-count-leaf-live", "C13", ("pyramid.py", """                if count:
                     count += 1
@@ -248,3 +253,11 @@ M("c17-filetype-default", "C17", ("builder.py", '        self.imgset.file_type =
 M("c17-reuse-not-restored", "C17", ("fits_tiler.py", "                else:\n                    self._restore_builder_from_wtml()\n", ""))
 M("c17-toast-levels", "C17", ("builder.py", "        self.imgset.tile_levels = depth\n", "        self.imgset.tile_levels = max(depth, 2)\n"))
 M("c17-wwtl-url-stale", "C17", ("builder.py", '        self.imgset.file_type = "." + self.pio.get_default_format()\n        self.imgset.url = self.pio.get_path_scheme() + self.imgset.file_type\n        self.place.name = self.imgset.name', '        self.imgset.file_type = "." + self.pio.get_default_format()\n        self.place.name = self.imgset.name'))
+
+
+# ---- compiled extension (generated C edited and rebuilt; emulates a .pyx change + rebuild)
+MC("c05-c-quadrant-corners", "C05", ("__pyx_f_6toasty_10_libtoasty__subsample(__pyx_v_up, __pyx_v_ur, __pyx_v_ri, __pyx_v_cen, __pyx_t_6, __pyx_t_4, __pyx_v_increasing)", "__pyx_f_6toasty_10_libtoasty__subsample(__pyx_v_up, __pyx_v_ur, __pyx_v_ri, __pyx_v_cen, __pyx_t_6, __pyx_t_4, !__pyx_v_increasing)"))
+MC("c04-c-mid-offset", "C04", ("__pyx_v_outl = (__pyx_v_a.x + atan2(__pyx_v_by, (cos(__pyx_v_a.y) + __pyx_v_bx)));", "__pyx_v_outl = (__pyx_v_a.x + atan2(__pyx_v_by, (cos(__pyx_v_a.y) + __pyx_v_bx))) + 1e-10;"))
+MC("c05-c-mid-offset", "C05", ("__pyx_v_outb = atan2((sin(__pyx_v_a.y) + sin(__pyx_v_b.y)), hypot((cos(__pyx_v_a.y) + __pyx_v_bx), __pyx_v_by));", "__pyx_v_outb = atan2((sin(__pyx_v_a.y) + sin(__pyx_v_b.y)), hypot((cos(__pyx_v_a.y) + __pyx_v_bx), __pyx_v_by)) * (1 + 1e-11);"))
+MC("c07-c-lon-test", "C07", ("  __pyx_t_7 = (__pyx_v_tile_lon_min < __pyx_v_bbox_lon_max);", "  __pyx_t_7 = (__pyx_v_tile_lon_max < __pyx_v_bbox_lon_max);"))
+MC("c06-c-quadrant-corners", "C06", ("__pyx_f_6toasty_10_libtoasty__subsample(__pyx_v_le, __pyx_v_cen, __pyx_v_lo, __pyx_v_ll, __pyx_t_4, __pyx_t_6, __pyx_v_increasing)", "__pyx_f_6toasty_10_libtoasty__subsample(__pyx_v_le, __pyx_v_cen, __pyx_v_lo, __pyx_v_ll, __pyx_t_6, __pyx_t_4, __pyx_v_increasing)"))
